@@ -582,7 +582,128 @@ def r6(ctx):
                f"{2 * maxnum} + 2*offset (msg num {maxnum} bytes and the extra field are zero-coded too)")
 
 
+def _taken_assign(ev, fn_node, env, target):
+    """Value AST assigned to `target` on the branch of the function's if-chains taken under env."""
+    found = []
+
+    def rec(stmts):
+        for st in stmts:
+            if isinstance(st, ast.If):
+                t = ev.ev(st.test, env)
+                if isinstance(t, (Sym, CallVal)):
+                    continue
+                rec(st.body if t else st.orelse)
+            elif isinstance(st, ast.Assign) and len(st.targets) == 1 and ap(st.targets[0]) == target:
+                found.append(st.value)
+            elif isinstance(st, (ast.For, ast.While, ast.With, ast.Try)):
+                rec(st.body)
+    rec(fn_node.body)
+    return found[-1] if found else None
+
+
+def _num_layout(value_node):
+    """(ff_prefix_len, struct fmt) of a message-number byte expression like b'\xff\xff' + struct.pack('!H', n)
+    or struct.pack('!BBH', 0xff, 0xff, n)."""
+    ff = 0
+    fmt = None
+    for n in ast.walk(value_node):
+        if isinstance(n, ast.Constant) and isinstance(n.value, bytes):
+            if set(n.value) - {0xFF}:
+                return None
+            ff += len(n.value)
+        elif isinstance(n, ast.Call) and ap(n.func) == "struct.pack" and n.args and isinstance(n.args[0], ast.Constant):
+            f = n.args[0].value
+            body = f.lstrip("<>!=@")
+            order = f[:len(f) - len(body)]
+            lead = 0
+            for a in n.args[1:-1]:
+                if isinstance(a, ast.Constant) and a.value == 0xFF:
+                    lead += 1
+                else:
+                    return None
+            if lead:
+                if body[:lead] != "B" * lead:
+                    return None
+                ff += lead
+                body = body[lead:]
+            fmt = order + body
+    return (ff, fmt) if fmt else None
+
+
+def r7(ctx):
+    repo = ctx.repo
+    ctx.rule("C01.R7", "message-number framing tables agree: per frequency the bytes built by the template "
+                       "dictionary/parser (FF-prefix + width) match the reader's _MSG_NUM_SPECS row, its "
+                       "frequency name, the body skip length and the header byte order")
+    dmod = repo.module(DES)
+    specs = repo.module_assign(dmod, "_MSG_NUM_SPECS")
+    rows = []
+    for row in specs.elts:
+        nm = row.elts[0].value if isinstance(row.elts[0], ast.Constant) else None
+        rows.append((nm, struct_fmt_of_prim(repo, spec_symbol(row.elts[1]) or "")))
+    freq = enum_members(repo, repo.cls("MsgFrequency", TYPES))
+    ctx.floor("C01.R7", "MsgFrequency members", len(freq), 4)
+    td = "hippolyzer/lib/base/message/template_dict.py"
+    bmi = repo.fn("TemplateDictionary.build_message_ids")
+    bd = repo.fn("TemplateDictionary.build_dictionaries")
+    snt = repo.fn("MessageTemplateParser._start_new_template")
+    glen = repo.fn("MessageTemplate.get_msg_freq_num_len")
+    hf = repo.fn("UDPMessageDeserializer._parse_message_header")
+    hdr_order = {c.args[0].value for c in find_calls(hf.node, "BufferReader") if c.args and isinstance(c.args[0], ast.Constant)}
+    for m, mv in freq.items():
+        fv = EnumVal("MsgFrequency", m, mv)
+        for f, var in ((bmi, "frequency"), (snt, "frequency")):
+            ev = ConstEval(repo, f.module)
+            env = {var: fv, "template.frequency": fv}
+            node = _taken_assign(ev, f.node, env, "num_bytes" if f is bmi else "msg_num_bytes")
+            ctx.ob("C01.R7", f"{f.qual}: builds number bytes for {m}", node is not None, f.where)
+            if node is None:
+                continue
+            lay = _num_layout(node)
+            if lay is None:
+                raise AnalysisError(f"C01.R7: {f.qual} number bytes for {m} not analysable: {norm(node)}")
+            k, fmt = lay
+            body = fmt.lstrip("<>!=@")
+            order = fmt[:len(fmt) - len(body)]
+            ok_row = k < len(rows) and rows[k][1] == body
+            ctx.ob("C01.R7", f"{f.qual}: {m} -> FF*{k} + '{body}' matches _MSG_NUM_SPECS[{k}]", ok_row, ctx.w(f, node),
+                   f"reader row {rows[k] if k < len(rows) else None}")
+            if struct.calcsize("<" + body) > 1:
+                ctx.ob("C01.R7", f"{f.qual}: {m} multi-byte number byte order equals header reader", {order or "@"} == hdr_order,
+                       ctx.w(f, node), f"packed {order!r}, header reader {sorted(hdr_order)}")
+            if f is bmi:
+                # frequency name used as dictionary key must be the reader's row name
+                ev2 = ConstEval(repo, bd.module)
+                nm_node = _taken_assign(ev2, bd.node, {"template.frequency": fv}, "frequency_str")
+                nm = ev2.ev(nm_node) if nm_node is not None else None
+                ctx.ob("C01.R7", f"lookup key name for {m} equals reader row name", k < len(rows) and nm == rows[k][0], bd.where,
+                       f"dictionary key {nm!r}, reader row {rows[k][0] if k < len(rows) else None!r}")
+                # body skip length
+                ev3 = ConstEval(repo, glen.module)
+                from ..miniinterp import run_block as _rb
+                try:
+                    out = _rb(ev3, glen.node.body, {"self.frequency": fv})
+                    ln = out.value.value if isinstance(out.value, EnumVal) else out.value
+                except AnalysisError as e:
+                    raise AnalysisError(f"C01.R7: get_msg_freq_num_len: {e}")
+                ctx.ob("C01.R7", f"get_msg_freq_num_len({m}) == len(number bytes)", ln == k + struct.calcsize("<" + body),
+                       glen.where, f"returns {ln}, bytes are {k}+{struct.calcsize('<' + body)}")
+    # writer puts freq_num_bytes then extra; reader skips num_len + offset
+    sf = repo.fn("UDPMessageSerializer.serialize")
+    wb = [c for c in find_calls(sf.node, "write_bytes", into_defs=False) if ap(c.func) == "body_writer.write_bytes"]
+    order_ok = len(wb) >= 2 and (ap(wb[0].args[0]) or "").endswith(".freq_num_bytes") and (ap(wb[1].args[0]) or "").endswith(".extra")
+    ctx.ob("C01.R7", "body writer emits freq_num_bytes then extra first", order_ok, sf.where)
+    bfs = class_methods_reachable(repo, repo.fn("UDPMessageDeserializer.parse_message_body"), depth=2)
+    seeks = [(f, c) for f in bfs for c in find_calls(f.node, "seek")]
+    oks = any(isinstance(c.args[0], ast.BinOp) and isinstance(c.args[0].op, ast.Add) and
+              {"get_msg_freq_num_len", "offset"} <= {x.split(".")[-1].replace("()", "") for x in
+                                                     [ap(c.args[0].left) or "", ap(c.args[0].right) or ""]}
+              for f, c in seeks if c.args)
+    ctx.ob("C01.R7", "body reader skips get_msg_freq_num_len() + offset", oks, DES)
+
+
 def run(ctx):
+    r7(ctx)
     r6(ctx)
     r1(ctx)
     r2_r3(ctx)
